@@ -26,4 +26,16 @@ PROPERTIES = {
              'crawl-level termination composes these per-visit and per-URL bounds with TriesFilter (C02) by a paper argument (DESIGN 5, C18)',
         not_decided=['termination of the whole crawl as one theorem (composition argument is on paper)'],
     ),
+    'C11': dict(
+        modules=['url'], level='proof',
+        claim='Exception-escape and termination contracts on every function reachable from URLInfo.parse, on each documented accessor of a parsed '
+              'URLInfo (class invariant = what parse establishes), on parse_url_or_log (raises nothing; the arguments of its log call are evaluated), '
+              'urljoin (ValueError only) and urljoin_safe (raises nothing): for all strings and all valid codec names every exit is a value or a '
+              'ValueError subclass; recursion carries a decreases measure. Three genuine defects found by these obligations were repaired (fix: commits).',
+        note='assumed library contracts: ipaddress.IPv4Address/IPv6Address (AddressValueError outside range / invalid text; compressed form charset), '
+             'the idna codec (UnicodeError), urllib.parse.unquote (no exception for a valid codec), urllib.parse.urljoin (ValueError only), str.encode '
+             '(UnicodeEncodeError iff not encodable, LookupError iff the codec name is invalid: precondition valid_codec(encoding)), int() numeral languages '
+             '(ASCII digits; CPython also accepts other Unicode digits); default_scheme is a str; loop termination of for-loops over finite sequences is by construction',
+        not_decided=['scraper/util.clean_link_soup and ItemSession.add_url are not under contract yet'],
+    ),
 }
